@@ -35,6 +35,7 @@ func runCP(c *ctx, cfg cpCfg, seed int64) rTrace {
 	tr := rTrace{Cfg: rCfg{Name: "cpool-coop/" + cfg.Policy, Mode: "users", Conc: cfg.Workers, MaxIter: int64(cfg.MaxIter),
 		MaxDurUs: 1_000_000_000, WaitUs: 1_000_000, PoolOnly: true,
 		Args: fmt.Sprintf("workers=%d maxiter=%d cancel=%v precancel=%v policy=%s seed=%d", cfg.Workers, cfg.MaxIter, cfg.Cancel, cfg.PreCancel, cfg.Policy, seed)}}
+	tr.Par = map[string]any{"n": cfg.Workers, "m": int(cfg.MaxIter), "pre": cfg.PreCancel}
 	tr.Cfg.Rendezvous = cfg.Policy == "body" && !cfg.PreCancel && (cfg.MaxIter == 0 || cfg.MaxIter >= uint64(cfg.Workers))
 	var mu sync.Mutex
 	add := func(e rEv) { mu.Lock(); tr.Ev = append(tr.Ev, e); mu.Unlock() }
@@ -48,6 +49,54 @@ func runCP(c *ctx, cfg cpCfg, seed int64) rTrace {
 			return "stopper"
 		}
 		return ""
+	}
+	// the schedule as specification actions (spec/ContinuousPool.tla), derived from hook arrivals and releases by a
+	// fixed table (see Trace_ContinuousPool.tla): [action, worker, argument]
+	widx := func(name string) int64 { k, _ := strconv.Atoi(strings.TrimPrefix(name, "w")); return int64(k) }
+	act := func(a string, w, n int64) { tr.Arr = append(tr.Arr, []any{a, w, n}) } // callers hold mu or the scheduler mutex
+	prev := map[string]string{}
+	firstStarted := true
+	s.OnPoint = func(proc, point string, n int64) {
+		mu.Lock()
+		defer mu.Unlock()
+		q := prev[proc]
+		prev[proc] = point
+		switch point {
+		case "cp.w.started":
+			if firstStarted {
+				firstStarted = false
+				for k := 1; k <= cfg.Workers; k++ {
+					act("arrive", int64(k), 0) // nobody passes the start barrier before everybody has arrived
+				}
+			}
+			act("pass", widx(proc), 0)
+		case "cp.w.loop":
+			act("check", widx(proc), 0) // found the stop flag clear
+		case "cp.w.exit":
+			if q != "cp.limit" {
+				act("check", widx(proc), 1) // found the stop flag set
+			}
+		case "body":
+			act("nextit", widx(proc), n) // was handed iteration id n
+		case "cp.limit":
+			act("nextit", widx(proc), 0) // was refused an id: the limit
+		case "cp.stopper.woken":
+			act("swake", 0, 0)
+		}
+	}
+	release := func(proc string) {
+		mu.Lock()
+		defer mu.Unlock()
+		switch prev[proc] {
+		case "cp.limit":
+			act("limit", widx(proc), 0) // cancels the worker context now
+		case "cp.stopper.woken":
+			act("sflag", 0, 0)
+		case "C.cancel":
+			act("cancel", 0, 0)
+		case "body":
+			act("body", widx(proc), 0)
+		}
 	}
 	stats := &progress.Stats{}
 	m := metrics.NewInstance(prometheus.NewRegistry(), true, nil)
@@ -176,6 +225,7 @@ func runCP(c *ctx, cfg cpCfg, seed int64) rTrace {
 			break
 		}
 		pick := cand[rng.Intn(len(cand))]
+		release(pick)
 		if _, err := s.Step(pick); err != nil {
 			tr.Err = err.Error()
 			break
@@ -193,6 +243,7 @@ func runCP(c *ctx, cfg cpCfg, seed int64) rTrace {
 			add(rEv{K: "noreturn", S: "WaitForCompletion not signalled although every worker finished"})
 		}
 		tot := stats.Total()
+		tr.Started = int64(tot.SuccessfulIterationDurations.Count + tot.FailedIterationDurations.Count)
 		add(rEv{K: "ret", A: int64(tot.SuccessfulIterationDurations.Count), B: int64(tot.FailedIterationDurations.Count), D: int64(tot.DroppedIterationCount)})
 	}
 	if len(names) > 120 {
